@@ -76,7 +76,7 @@ def run(tier, seed):
     ]
     res.assumptions = ["entries inhabit list[tuple[str, DataValue]]; floats are an abstract sort (never bits)",
                        "results inhabits list[QsysShot]; the shots' entry lists are not aliased with anything the functions write (they write nothing: modifies = [])"]
-    standard_flow(res, FILES, TARGETS, concretize, bounded_modules=[("bounded.c19", 300, 1500)])
+    standard_flow(res, FILES, TARGETS, concretize, bounded_modules=[("bounded.c19", 900, 1500)])
     res.level = "other"
     res.explanation = ("Proved deductively for all inputs: _cast_primitive_bit, QsysShot.to_register_bits (= replay of the entries in order; every character 0/1; "
                        "ValueError exactly when some entry's value is not a bit / list of bits), collate_tags, QsysResult.register_bitstrings (one list per register holding, in shot order, the string of "
